@@ -275,7 +275,7 @@ pub fn c04_position(p: &gen::PosSpec, st: &mut Stats) -> Check {
 }
 
 fn run_c04(cfg: &RunCfg, stats: &mut Stats) -> Outcome {
-    let cases = if cfg.thorough { 1_000_000 } else { 40_000 };
+    let cases = if cfg.thorough { 400_000 } else { 40_000 };
     let strat = || {
         (gen::raw_pos(), 0u8..32, 0u8..8, 0u8..8, prop::collection::vec((any::<u8>(), any::<u8>(), any::<u8>()), 1..5))
             .prop_map(|(raw, target, a, b, imm)| C04Raw { raw, target, goal_file_last: a, goal_file_mover: b, imm })
@@ -413,7 +413,7 @@ fn run_c15(cfg: &RunCfg, stats: &mut Stats) -> Outcome {
         }
         stats.bump("text/golden_inputs");
     }
-    let cases = if cfg.thorough { 1_500_000 } else { 60_000 };
+    let cases = if cfg.thorough { 600_000 } else { 60_000 };
     let seed = cfg.seed;
     let mut s = Stats::default();
     let out = sharded(
@@ -509,7 +509,7 @@ fn run_c16(cfg: &RunCfg, stats: &mut Stats, exhaustive: &mut bool, extra: &mut V
     *exhaustive = true;
     *extra = json!({"exhaustive_part": "263 actions, 64 squares, 6 pieces, 4 directions, 475255 strings (length <= 4 over 26 symbols)", "sampled_part": "longer strings, arbitrary Unicode, random u64 bitboards"});
     // sampled: longer strings
-    let cases = if cfg.thorough { 3_000_000 } else { 100_000 };
+    let cases = if cfg.thorough { 1_500_000 } else { 100_000 };
     let seed = cfg.seed;
     try_outcome!(sharded(
         cfg,
